@@ -205,7 +205,13 @@ class TimeLiteral(Node):
         return visitor.visitTimeLiteral(self.value, self)
 
     def __str__(self) -> str:
-        return "'{value}'".format(**vars(self))
+        # Use the time literal syntax understood by the parser, with
+        # nanosecond precision and an explicit time scale, so that the
+        # printed expression parses back to the same time.
+        import astropy.time
+
+        value = astropy.time.Time(self.value, format="iso", precision=9)
+        return f"T'{value.iso}/{value.scale}'"
 
 
 class NumericLiteral(Node):
